@@ -97,6 +97,17 @@ class Ctx:
 
     # ---- finishing
     def finish(self):
+        import builtins
+        import sys
+
+        def print(*a, **k):   # a closed stdout (e.g. `| head`) must not change the verdict
+            try:
+                builtins.print(*a, **k)
+            except BrokenPipeError:
+                try:
+                    sys.stdout = open(os.devnull, "w")
+                except OSError:
+                    pass
         viol = [o for o in self.obls if o["verdict"] == "violation"]
         known = [o for o in self.obls if o["verdict"] == "known-finding"]
         holds = [o for o in self.obls if o["verdict"] == "holds"]
